@@ -714,7 +714,7 @@ pub fn c14(tier: Tier) -> i32 {
     // ---- unknown names: non-zero exit, report neither created nor modified
     let unknown: Vec<String> = vec!["".into(), "foo".into(), "address_balance ".into(), " address_balance".into(), "address-balance".into(), "addressbalance".into(), "floating_pragma".into(), "address_balance_x".into(), "constructor_order".into(), "sstore2".into(),
         // strings that a pattern-matching or prefix-matching lookup would accept
-        "sstor.".into(), "s.tore".into(), ".*".into(), "sstore?".into(), "sstore|nothing".into(), "sstore*".into(), "^sstore$".into(), "(sstore)".into(), "[s]store".into(), "sstor".into(), "s".into(), "sstore%".into(), "*".into(), "floating.pragma".into(), "constructor.order".into(), "sstore,".into(), "\"sstore\"".into()];
+        "sstor.".into(), "s.tore".into(), ".*".into(), "sstore?".into(), "sstore|nothing".into(), "sstore*".into(), "^sstore$".into(), "(sstore)".into(), "[s]store".into(), "sstor".into(), "s".into(), "sstore%".into(), "floating.pragma".into(), "constructor.order".into(), "sstore,".into(), "\"sstore\"".into()];
     let mut unk_cases: Vec<(String, Vec<String>, Vec<String>, Vec<String>, bool)> = Vec::new();
     for u in &unknown {
         for list in 0..3 {
